@@ -369,7 +369,10 @@ func verifC20Plain(x *verifC20Ctx, arch []byte, ms []verifC20Member, full bool, 
 		}
 	}
 	// (5) SHA256SUMS edits
-	for _, e := range []string{"drop-line-0", "drop-line-1", "drop-all", "swap-hashes", "extra-line", "upper-hex", "crlf", "dup-line", "one-space", "truncate-hash", "hash-of-other", "leading-blank", "trailing-garbage-line"} {
+	for _, e := range []string{"drop-line-0", "drop-line-1", "drop-all", "swap-hashes", "extra-line", "upper-hex", "crlf", "dup-line", "one-space", "truncate-hash", "hash-of-other", "leading-blank", "trailing-garbage-line",
+		// cooperating alterations: the list names only ONE member, repeated so that the number of lines still fits, and
+		// (second group) the member that is no longer listed is altered as well
+		"only-0-x2", "only-0-x3", "only-1-x2", "only-1-x3", "only-0-x2+alter-1", "only-1-x2+alter-0", "only-0-x3+alter-1", "only-1-x3+alter-0"} {
 		apply(verifC20Fault{Kind: "sums", Arg: e})
 	}
 }
@@ -566,6 +569,21 @@ func verifC20ApplyPlain(arch []byte, ms []verifC20Member, f verifC20Fault, state
 		case "hash-of-other":
 			a, b := strings.SplitN(lines[0], "  ", 2), strings.SplitN(lines[1], "  ", 2)
 			nd = a[0] + "  " + a[1] + "\n" + a[0] + "  " + b[1] + "\n"
+		case "only-0-x2", "only-0-x3", "only-1-x2", "only-1-x3", "only-0-x2+alter-1", "only-1-x2+alter-0", "only-0-x3+alter-1", "only-1-x3+alter-0":
+			keep := int(f.Arg[5] - '0')
+			nd, must = strings.Repeat(lines[keep]+"\n", int(f.Arg[8]-'0')), true // the other member has no checksum line
+			if strings.Contains(f.Arg, "+alter-") {
+				// alter the member that lost its line (its name is the second field of the dropped line)
+				dropped := strings.SplitN(lines[1-keep], "  ", 2)
+				a := join(arch[:m.hdrOff], verifC20RawMember("SHA256SUMS", '0', []byte(nd)), trailer)
+				for _, vm := range ms[:2] {
+					if len(dropped) == 2 && vm.name == dropped[1] && vm.size > 0 {
+						a[vm.dataOff+vm.size/2] ^= 0x01
+						return a, true, "sums:" + f.Arg, true
+					}
+				}
+				return nil, false, "", false
+			}
 		case "leading-blank":
 			nd = "\n" + data
 		case "trailing-garbage-line":
